@@ -253,7 +253,7 @@ fn process(p: &dyn Prop, d: &mut Driver, case: &Case, st: &mut Stats, sample_eve
     let violation = r2 || (case.in_domain && d2);
     st.failures.push(json!({
         "request": small, "case": p.describe(&small), "model": m2, "impl": i2,
-        "original_request": case.req,
+        "original_request": case.req, "first_model": model, "first_impl": imp,
         "in_domain": case.in_domain, "relation_violated": r2, "model_differs": d2,
         "property_violation": violation,
     }));
